@@ -16,7 +16,8 @@ from vlib.core import Outcome, Part
 ID = "C13"
 RULE = ("table cases as in C12 restricted to records with explicit fields or namedtuples (no value-path columns), "
         "followed by 0-6 life-cycle operations: print (whole / by lines, colour / no colour), fmt = generated column and "
-        "limit descriptions, fmt = '' / ';' / ';;', remove_columns; at every state str(t.fmt) is checked through the "
+        "limit descriptions, fmt = '' / ';' / ';;', rejected formats, remove_columns, a sibling table made from the table's "
+        "format object (fmt_obj=) with other records; at every state str(t.fmt) is checked through the "
         "constructor and (when the generated flag says so) through the setter, before and after printing. Non-trivial = "
         "a state that is 'printed' with a ranged (min<max) column, or with active limits, or with a repeated / hidden "
         "field; distinct by case hash.")
@@ -58,6 +59,25 @@ def fmt_from_spec(case, spec):
     elif lim is not None:
         parts.append("%d:%d" % tuple(lim))
     return ";".join(parts)
+
+
+def sibling_case(case, how):
+    """the same table description with other records: longer / shorter texts, larger numbers, other order"""
+    def tr(v):
+        if isinstance(v, bool) or v is None:
+            return v
+        if isinstance(v, str):
+            return v * 3 if how % 2 else v[:1]
+        if isinstance(v, int):
+            return v * 1000 + 7 if how % 2 else v % 10
+        return v
+    enum_fields = {i for i, fn in enumerate(case["fields"]) if fn in (case.get("enums") or {})}
+    recs = [[v if i in enum_fields else tr(v) for i, v in enumerate(r)] for r in case["records"][::-1]]
+    if how >= 2:
+        recs = recs + recs[:2]
+    c2 = dict(case, records=recs)
+    c2.pop("same_as", None)
+    return c2
 
 
 class Ctx:
@@ -193,6 +213,16 @@ def evaluate(case):
                     Rn = render(t)
                     if Rn != R:
                         ctx.f.append(("rejected_fmt_changes_rendering", f"t.fmt = {op[1]!r} (rejected)\n{R[0]}\n---\n{Rn[0]}"))
+            elif kind == "sibling":
+                # another table made from this table's format object (fmt_obj=), with other records: its reported string
+                # must reproduce *it*
+                case2 = sibling_case(case, op[1])
+                kw2 = {k: v for k, v in tables.ctor_kwargs(P, case2, use_case_fmt=False).items() if k in ("header", "footer")}
+                t2 = P.PPTable(tables.make_records(case2), fmt_obj=t.fmt, **kw2)
+                n0 = len(ctx.f)
+                verify(ctx, P, case2, t2, bool(op[-1]), label)
+                ctx.f[n0:] = [(b + "_for_table_made_from_format_object", d) for b, d in ctx.f[n0:]]
+                ctx.info.add("op_sibling_from_fmt_obj")
             elif kind == "remove":
                 vis = strip_annot(str(t.fmt)).split(",")
                 names = {c.split(":")[0].split("/")[0].rstrip("!") for c in vis}
@@ -236,9 +266,11 @@ def st_case(draw):
         return cols
     ops = []
     for _ in range(draw(st.integers(0, 6))):
-        k = draw(st.sampled_from(["print", "print", "setfmt", "setfmt", "setfmt_raw", "remove", "setfmt_bad"]))
+        k = draw(st.sampled_from(["print", "print", "setfmt", "setfmt", "setfmt_raw", "remove", "setfmt_bad", "sibling"]))
         flag = draw(st.booleans())
-        if k == "print":
+        if k == "sibling":
+            ops.append(["sibling", draw(st.integers(0, 3)), flag])
+        elif k == "print":
             ops.append(["print", draw(st.sampled_from(["whole_nc", "whole_color", "lines_nc"])), flag])
         elif k == "setfmt":
             ck = draw(st.sampled_from(["cols", "cols", "star", "none"]))
